@@ -2,6 +2,7 @@ package capharness
 
 import (
 	"fmt"
+	"sort"
 	"strings"
 )
 
@@ -130,7 +131,10 @@ func describeBlocks(bs []Block) string {
 	return "[" + strings.Join(s, " ") + "]"
 }
 
-// Diff describes the first difference between the observables of two runs of twin scripts, or "".
+// DiffRuns returns the first difference between the observables of two runs of twin scripts (a = the run with
+// packets inside pause windows). Clauses: traffic-missing (records of a hold less than those of b: a packet was
+// dropped), traffic-surplus (more: counted twice or invented), traffic-altered (moved between records / directions /
+// sizes), counters-differ (processed / parsing-error counters), blocks-differ (different write-outs).
 func DiffRuns(ifaces []string, a, b *Result, na, nb string) *Failure {
 	if len(a.Events) != len(b.Events) {
 		return failf("twin-events", "%s run has %d status/query results, %s run %d", na, len(a.Events), nb, len(b.Events))
@@ -147,8 +151,8 @@ func DiffRuns(ifaces []string, a, b *Result, na, nb string) *Failure {
 				if oka != okb || sa != sb {
 					return failf("counters-differ", "%s: status call %d reports %+v (present %v) in the %s run and %+v (present %v) in the %s run", iface, i, sa, oka, na, sb, okb, nb)
 				}
-			} else if d := diffFlows(ea.Live[iface], eb.Live[iface]); d != "" {
-				return failf("live-flows-differ", "%s: live query %d: %s\n  %s: %v\n  %s: %v", iface, i, d, na, ea.Live[iface], nb, eb.Live[iface])
+			} else if d, kind := diffFlows(ea.Live[iface], eb.Live[iface]); d != "" {
+				return failf("traffic-"+kind, "%s: live query %d: %s\n  %s: %v\n  %s: %v", iface, i, d, na, ea.Live[iface], nb, eb.Live[iface])
 			}
 		}
 	}
@@ -164,12 +168,12 @@ func DiffRuns(ifaces []string, a, b *Result, na, nb string) *Failure {
 			if ba[i].Ts != bb[i].Ts {
 				return failf("blocks-differ", "%s: block %d has timestamp %d in the %s run and %d in the %s run", iface, i, ba[i].Ts, na, bb[i].Ts, nb)
 			}
-			if d := diffFlows(ba[i].Flows, bb[i].Flows); d != "" {
-				return failf("blocks-differ", "%s: block %d: %s\n  %s: %v\n  %s: %v", iface, ba[i].Ts, d, na, ba[i].Flows, nb, bb[i].Flows)
+			if d, kind := diffFlows(ba[i].Flows, bb[i].Flows); d != "" {
+				return failf("traffic-"+kind, "%s: block %d: %s\n  %s: %v\n  %s: %v", iface, ba[i].Ts, d, na, ba[i].Flows, nb, bb[i].Flows)
 			}
 		}
-		if d := diffFlows(a.FinalLive[iface], b.FinalLive[iface]); d != "" {
-			return failf("live-flows-differ", "%s: flows in memory at the end: %s\n  %s: %v\n  %s: %v", iface, d, na, a.FinalLive[iface], nb, b.FinalLive[iface])
+		if d, kind := diffFlows(a.FinalLive[iface], b.FinalLive[iface]); d != "" {
+			return failf("traffic-"+kind, "%s: flows in memory at the end: %s\n  %s: %v\n  %s: %v", iface, d, na, a.FinalLive[iface], nb, b.FinalLive[iface])
 		}
 		if a.FinalStat[iface] != b.FinalStat[iface] {
 			return failf("counters-differ", "%s: final status reports %+v in the %s run and %+v in the %s run", iface, a.FinalStat[iface], na, b.FinalStat[iface], nb)
@@ -178,20 +182,55 @@ func DiffRuns(ifaces []string, a, b *Result, na, nb string) *Failure {
 	return nil
 }
 
-func diffFlows(a, b FlowSet) string {
-	for k, v := range a {
-		w, ok := b[k]
-		if !ok {
-			return fmt.Sprintf("record %v%v exists in the first run only", k, v)
-		}
-		if v != w {
-			return fmt.Sprintf("record %v holds %v in the first run and %v in the second", k, v, w)
-		}
-	}
-	for k, v := range b {
-		if _, ok := a[k]; !ok {
-			return fmt.Sprintf("record %v%v exists in the second run only", k, v)
+// diffFlows describes the first difference between two flow sets and classifies the whole difference from the
+// point of view of the first set: missing (every counter <= the second set's), surplus (>=) or altered.
+func diffFlows(a, b FlowSet) (text, kind string) {
+	less, more := false, false
+	cmp := func(x, y uint64) {
+		if x < y {
+			less = true
+		} else if x > y {
+			more = true
 		}
 	}
-	return ""
+	keys := map[Key]bool{}
+	for k := range a {
+		keys[k] = true
+	}
+	for k := range b {
+		keys[k] = true
+	}
+	var ks []Key
+	for k := range keys {
+		ks = append(ks, k)
+	}
+	sort.Slice(ks, func(i, j int) bool { return ks[i].String() < ks[j].String() })
+	for _, k := range ks {
+		v, inA := a[k]
+		w, inB := b[k]
+		cmp(v.BR, w.BR)
+		cmp(v.BS, w.BS)
+		cmp(v.PR, w.PR)
+		cmp(v.PS, w.PS)
+		if text != "" || (inA == inB && v == w) {
+			continue
+		}
+		switch {
+		case !inB:
+			text = fmt.Sprintf("record %v%v exists in the first run only", k, v)
+		case !inA:
+			text = fmt.Sprintf("record %v%v exists in the second run only", k, w)
+		default:
+			text = fmt.Sprintf("record %v holds %v in the first run and %v in the second", k, v, w)
+		}
+	}
+	switch {
+	case text == "":
+		return "", ""
+	case less && !more:
+		return text, "missing"
+	case more && !less:
+		return text, "surplus"
+	}
+	return text, "altered"
 }
